@@ -3,7 +3,7 @@
 RESET, FRESH, ORDERED-READ, SORTKEY, PUBLISH-ORDER  (DESIGN §5 C05, C18)
 """
 from ..core import RuleResult
-from ..ir import access_paths, walk, callee_matches, strip
+from ..ir import access_paths, walk, callee_matches, strip, inline
 from .. import anchors
 
 STABLE_SORTS = {'sorted_by', 'sorted_by_key', 'sort_by', 'sort_by_key', 'sort_by_cached_key',
@@ -457,6 +457,7 @@ def _check_comparator(cl, want, by_key):
         return False, 'comparator has several return expressions (unrecognised idiom)'
     e = alts[0]
     if by_key:
+        e = inline(cl.facts, e, depth=2)
         if e[0] == 'agg' and e[1] == 'tuple':
             got = [_side_fields(cl, o) for o in e[5]]
             if all(g is not None for g in got) and [g[1] for g in got] == want:
@@ -692,8 +693,15 @@ def rule_sibling_splice(ctx):
                 continue
             for y in walk(b.expr_of_operand(t['args'][1])):
                 if y[0] == 'agg' and y[2] and 'ops::Range' in y[2]:
+                    present = set()
                     for nm, e in zip(y[4], y[5]):
                         bounds.add((nm, _norm(e, A['replacement_adt'])))
+                        present.add(nm)
+                    # open-ended ranges: a missing end is the length, a missing start is 0
+                    if 'end' not in present and 'RangeFull' not in y[2]:
+                        bounds.add(('end', ('LEN',)))
+                    if 'start' not in present:
+                        bounds.add(('start', ('ZERO',)))
                     break
         sk[name] = (b, bounds)
         r.site('%s: slice-bound skeletons %s' % (b.path, sorted(bounds)), b.span(), 'ok')
